@@ -12,7 +12,7 @@ open ParsecVerif.Context ParsecVerif.Compound
 
 /-- a member whose callback stamp is set is in (or past) its completion callback -/
 theorem member_cb_state {clk : Nat} {tp : Tp} (hok : tpOK clk tp) (he : tp.early = false) (hc : tp.cbAt ≠ 0) :
-    (tp.st = .inCb ∨ tp.st = .done) ∧ tp.addAt ≠ 0 ∧ tp.addAt < tp.cbAt ∧ tp.lastEnd < tp.cbAt ∧
+    (tp.st = .inCb ∨ tp.st = .inCbN ∨ tp.st = .done) ∧ tp.addAt ≠ 0 ∧ tp.addAt < tp.cbAt ∧ tp.lastEnd < tp.cbAt ∧
     tp.ended = tp.total ∧ tp.started = tp.total := by
   cases hst : tp.st <;> simp only [tpOK, hst] at hok <;>
     obtain ⟨a1, a2, a3, a4, a5, a6, a7, a8, a9, a10, a11, a12⟩ := hok
@@ -22,9 +22,21 @@ theorem member_cb_state {clk : Nat} {tp : Tp} (hok : tpOK clk tp) (he : tp.early
   case earlyCb => rw [a12.1] at he; cases he
   case earlyDec => rw [a12.1] at he; cases he
   case inCb => exact ⟨Or.inl rfl, by omega, by omega, by omega, by omega, by omega⟩
+  case inCbN => exact ⟨Or.inr (Or.inl rfl), by omega, by omega, by omega, by omega, by omega⟩
   case done =>
     have := a12.2.2.2.2.2.2.1 he
-    exact ⟨Or.inr rfl, by omega, by omega, by omega, by omega, by omega⟩
+    exact ⟨Or.inr (Or.inr rfl), by omega, by omega, by omega, by omega, by omega⟩
+
+/-- a member is never in a nested callback -/
+theorem member_not_inCbN {l : List Tp} {c : Comp} (hci : CI l c) {i m : Nat} {tp : Tp} (hm : c.members[i]? = some m)
+    (htp : l[m]? = some tp) : tp.st ≠ .inCbN := by
+  obtain ⟨x, hx, _, b2, b3, b4⟩ := hci.mem i m hm
+  rw [htp] at hx; cases hx
+  intro e
+  rcases Nat.lt_trichotomy i c.completed with h | h | h
+  · rcases b2 h with e' | e' <;> rw [e] at e' <;> cases e'
+  · rcases (b4 h).1 with e' | e' | e' <;> rw [e] at e' <;> cases e'
+  · have := b3 h; rw [e] at this; cases this
 
 /-- chain of stamps along the members: if member `i+d+1` was ever incremented, member `i` ran its
     completion callback before that -/
@@ -69,7 +81,13 @@ theorem C15_order (k : Nat) (tps : List Tp) (comps : List Comp) (hwf : WF tps co
   obtain ⟨x, hx, hei, _⟩ := hci.mem i mi hi
   rw [hti] at hx; cases hx
   obtain ⟨e1, _, _, e4, e5, e6⟩ := member_cb_state (hg.sinv.tpok ti (List.mem_of_getElem? hti)) hei b1
-  exact ⟨e5, e6, e1, e4, b2, ha1⟩
+  have hnn := member_not_inCbN hci hi hti
+  have e1' : ti.st = .inCb ∨ ti.st = .done := by
+    rcases e1 with e | e | e
+    · exact Or.inl e
+    · exact absurd e hnn
+    · exact Or.inr e
+  exact ⟨e5, e6, e1', e4, b2, ha1⟩
 
 /-- **The assert of `parsec_composed_taskpool_cb` cannot fail, and the next taskpool is enabled iff
     some remain.**  Whenever the termination of a member `m` can be detected, `m` is
@@ -84,7 +102,7 @@ theorem C15_assert_holds (k : Nat) (tps : List Tp) (comps : List Comp) (hwf : WF
         (crun k tps comps trs).base.tps[nx]? = some tn ∧ tn.st = .notAdded) := by
   have hg := gi_run k tps comps hwf trs
   have hci := hg.ci ci c hc
-  obtain ⟨tp, htp, hst, _⟩ := detect_eff hdet
+  obtain ⟨tp, htp, hst, _, _⟩ := detect_eff hdet
   obtain ⟨kk, hkl, hkget⟩ := List.getElem_of_mem hm
   have hk : c.members[kk]? = some m := by rw [List.getElem?_eq_getElem hkl, hkget]
   obtain ⟨hkc, hpend, hlt⟩ := added_pos hci hk htp hst
@@ -94,66 +112,172 @@ theorem C15_assert_holds (k : Nat) (tps : List Tp) (comps : List Comp) (hwf : WF
   obtain ⟨tn, htn, _, _, h3, _⟩ := hci.mem _ _ hn
   exact ⟨_, tn, hn, htn, h3 (by omega)⟩
 
-/-- **Exactly once (the part that is true of the code).**  The completion callback of the compound
-    and of each member runs at most once at any moment, exactly once when the taskpool is done; the
-    members complete in order (`completed` of them are in or past their callback, the others are
-    not), and when all `n` have completed nothing is pending. -/
-theorem C15_once_partial (k : Nat) (tps : List Tp) (comps : List Comp) (hwf : WF tps comps) (trs : List CTr)
-    (ci : Nat) (c : Comp) (hc : (crun k tps comps trs).comps[ci]? = some c) :
-    (∀ tp ∈ (crun k tps comps trs).base.tps, tp.cbs ≤ 1 ∧ (tp.st = .done → tp.cbs = 1)) ∧
-    c.completed ≤ c.members.length ∧
+/-- **The compound completes exactly once, after tp[n-1]** (repaired code).  At every moment of every
+    run: the completion callback of the compound object ran at most once; it has run (exactly once)
+    if and only if all `n` members completed; and when it has run, every member is in or past its own
+    completion callback, all its tasks have started and ended, and
+    `lastEnd(member) < cbAt(member) < cbAt(compound)`: the compound's completion is later than the
+    last task of every composed taskpool (in particular of tp[n-1]).  The members complete in order:
+    exactly the first `completed` of them are in or past their callback. -/
+theorem C15_once (k : Nat) (tps : List Tp) (comps : List Comp) (hwf : WF tps comps) (trs : List CTr)
+    (ci : Nat) (c : Comp) (hc : (crun k tps comps trs).comps[ci]? = some c)
+    (ts : Tp) (hts : (crun k tps comps trs).base.tps[c.self]? = some ts) :
+    ts.cbs ≤ 1 ∧ (ts.cbs = 1 ↔ c.completed = c.members.length) ∧ (ts.cbs = 1 ↔ ts.cbAt ≠ 0) ∧
+    (c.completed = c.members.length → ts.st = .inCbN ∨ ts.st = .done) ∧
     (∀ (i m : Nat) (tp : Tp), c.members[i]? = some m → (crun k tps comps trs).base.tps[m]? = some tp →
         ((tp.st = .inCb ∨ tp.st = .done) ↔ i < c.completed)) ∧
-    (c.completed = c.members.length → c.pending = 0) := by
+    (ts.cbAt ≠ 0 → ∀ (m : Nat) (tm : Tp), m ∈ c.members → (crun k tps comps trs).base.tps[m]? = some tm →
+        (tm.st = .inCb ∨ tm.st = .done) ∧ tm.ended = tm.total ∧ tm.started = tm.total ∧
+        tm.lastEnd < tm.cbAt ∧ tm.cbAt < ts.cbAt) := by
   have hg := gi_run k tps comps hwf trs
   have hci := hg.ci ci c hc
-  refine ⟨?_, hci.le, ?_, hci.fin⟩
-  · intro tp hm
-    have hok := hg.sinv.tpok tp hm
-    cases hst : tp.st <;> simp only [tpOK, hst] at hok <;>
-      obtain ⟨a1, a2, a3, a4, a5, a6, a7, a8, a9, a10, a11, a12⟩ := hok
-    case notAdded => exact ⟨a6, fun e => nomatch e⟩
-    case adding => exact ⟨a6, fun e => nomatch e⟩
-    case earlyCb => exact ⟨a6, fun e => nomatch e⟩
-    case earlyDec => exact ⟨a6, fun e => nomatch e⟩
-    case added => exact ⟨a6, fun e => nomatch e⟩
-    case inCb => exact ⟨a6, fun e => nomatch e⟩
-    case done => exact ⟨a6, fun _ => a12.1⟩
-  · intro i m tp hm htp
+  have hcs := hg.cself ci c hc
+  obtain ⟨ts0, hts0, a0, ae, ass, ap, a1, a2, a3, a4⟩ := hcs.ex
+  rw [hts] at hts0; cases hts0
+  have hok := hg.sinv.tpok ts (List.mem_of_getElem? hts)
+  have hle := hci.le
+  -- callback count and stamp by state
+  have hcount : ts.cbs ≤ 1 ∧ ((ts.st = .inCbN ∨ ts.st = .done) → ts.cbs = 1 ∧ ts.cbAt ≠ 0) := by
+    cases hst : ts.st <;> simp only [tpOK, hst] at hok <;>
+      obtain ⟨b1, b2, b3, b4, b5, b6, b7, b8, b9, b10, b11, b12⟩ := hok
+    case notAdded => exact ⟨b6, fun e => by rcases e with e | e <;> cases e⟩
+    case adding => exact ⟨b6, fun e => by rcases e with e | e <;> cases e⟩
+    case earlyCb => exact ⟨b6, fun e => by rcases e with e | e <;> cases e⟩
+    case earlyDec => exact ⟨b6, fun e => by rcases e with e | e <;> cases e⟩
+    case added => exact ⟨b6, fun e => by rcases e with e | e <;> cases e⟩
+    case inCb => exact ⟨b6, fun e => by rcases e with e | e <;> cases e⟩
+    case inCbN => exact ⟨b6, fun _ => ⟨b12.2.2.1, by omega⟩⟩
+    case done => exact ⟨b6, fun _ => ⟨b12.1, b12.2.1⟩⟩
+  have hmemiff : ∀ (i m : Nat) (tp : Tp), c.members[i]? = some m → (crun k tps comps trs).base.tps[m]? = some tp →
+      ((tp.st = .inCb ∨ tp.st = .done) ↔ i < c.completed) := by
+    intro i m tp hm htp
     obtain ⟨x, hx, _, b2, b3, b4⟩ := hci.mem i m hm
     rw [htp] at hx; cases hx
     constructor
     · intro hs
       rcases Nat.lt_trichotomy i c.completed with h | h | h
       · exact h
-      · obtain ⟨a1, _, _⟩ := b4 h
-        rcases hs with e | e <;> rw [e] at a1 <;> rcases a1 with e' | e' | e' <;> cases e'
+      · obtain ⟨a1', _, _⟩ := b4 h
+        rcases hs with e | e <;> rw [e] at a1' <;> rcases a1' with e' | e' | e' <;> cases e'
       · have := b3 h
         rcases hs with e | e <;> rw [e] at this <;> cases this
     · exact b2
+  refine ⟨hcount.1, ?_, ?_, a2, hmemiff, ?_⟩
+  · constructor
+    · intro h1
+      rcases Nat.lt_or_ge c.completed c.members.length with h | h
+      · have := (a3 h).2; omega
+      · omega
+    · intro hcn; exact (hcount.2 (a2 hcn)).1
+  · constructor
+    · intro h1
+      rcases Nat.lt_or_ge c.completed c.members.length with h | h
+      · have := (a3 h).2; omega
+      · exact (hcount.2 (a2 (by omega))).2
+    · intro hcb
+      rcases Nat.lt_or_ge c.completed c.members.length with h | h
+      · exact absurd (a3 h).1 hcb
+      · exact (hcount.2 (a2 (by omega))).1
+  · intro hcb m tm hm htm
+    have hcn : c.completed = c.members.length := by
+      rcases Nat.lt_or_ge c.completed c.members.length with h | h
+      · exact absurd (a3 h).1 hcb
+      · omega
+    obtain ⟨i, hil, hget⟩ := List.getElem_of_mem hm
+    have hi : c.members[i]? = some m := by rw [List.getElem?_eq_getElem hil, hget]
+    obtain ⟨x, hx, hem, b2, _, _⟩ := hci.mem i m hi
+    rw [htm] at hx; cases hx
+    have hstm := b2 (by omega)
+    have hokm := hg.sinv.tpok tm (List.mem_of_getElem? htm)
+    have hcbm : tm.cbAt ≠ 0 := by
+      rcases hstm with e | e <;> simp only [tpOK, e] at hokm
+      · omega
+      · exact hokm.2.2.2.2.2.2.2.2.2.2.2.2.1
+    obtain ⟨_, e2, e3, e4, e5, e6⟩ := member_cb_state hokm hem hcbm
+    refine ⟨hstm, e5, e6, e4, ?_⟩
+    -- the last member
+    have hne := hcs.ne
+    have hll : c.members.length - 1 < c.members.length := by omega
+    have hl : c.members[c.members.length - 1]? = some c.members[c.members.length - 1] := List.getElem?_eq_getElem hll
+    obtain ⟨tl, htl, hel, _⟩ := hci.mem _ _ hl
+    obtain ⟨f1, f2⟩ := a4 hcb _ tl hl htl
+    by_cases hlast : i = c.members.length - 1
+    · subst hlast
+      rw [hl] at hi; cases hi
+      rw [htm] at htl; cases htl
+      exact f2
+    · obtain ⟨d, hd⟩ : ∃ d, c.members.length - 1 = i + d + 1 := ⟨c.members.length - 1 - i - 1, by omega⟩
+      obtain ⟨_, g2, g3, _⟩ := member_cb_state (hg.sinv.tpok tl (List.mem_of_getElem? htl)) hel f1
+      obtain ⟨c1, c2⟩ := chain hci hg.sinv.tpok d i m _ tm tl hi (by rw [← hd]; exact hl) htm htl g2
+      omega
 
-/-- The full second half of the statement: the compound's own completion (its callback) comes after
-    the last task of every member. -/
+/-- The second half of the statement, in full: whenever the compound's completion callback has run, every
+    task of every composed taskpool has ended before it. -/
 def CompletesAfterLast : Prop :=
   ∀ (k : Nat) (tps : List Tp) (comps : List Comp), WF tps comps → ∀ (trs : List CTr) (ci : Nat) (c : Comp),
     (crun k tps comps trs).comps[ci]? = some c → ∀ ts : Tp, (crun k tps comps trs).base.tps[c.self]? = some ts → ts.cbAt ≠ 0 →
     ∀ (m : Nat) (tm : Tp), m ∈ c.members → (crun k tps comps trs).base.tps[m]? = some tm →
       tm.ended = tm.total ∧ tm.lastEnd < ts.cbAt
 
-def wTps : List Tp := [mkTp 1 false false, mkTp 1 false false, mkTp 0 true false]
+/-- **The compound completes after its last taskpool** (repaired code): the full statement holds. -/
+theorem C15_completes_after_last : CompletesAfterLast := by
+  intro k tps comps hwf trs ci c hc ts hts hcb m tm hm htm
+  obtain ⟨_, _, _, _, _, h6⟩ := C15_once k tps comps hwf trs ci c hc ts hts
+  obtain ⟨_, e2, _, e4, e5⟩ := h6 hcb m tm hm htm
+  exact ⟨e2, by omega⟩
+
+def wTps : List Tp := [mkTp 1 false false, mkTp 1 false false, mkTp 0 false true]
 def wComps : List Comp := [{ self := 2, members := [0, 1] }]
-/-- the witness: master adds the compound (its callback and decrement run inside add_taskpool), starts,
-    waits; only then do the two members run, one after the other -/
+/-- non-vacuity: master adds the compound, starts, waits; the members run one after the other; the last
+    member's callback terminates the compound (nested), then both decrements, then the wait returns -/
 def wRun : List CTr :=
-  [.ctx (.addCall 0 2), .ctx (.earlyCb 0), .ctx (.earlyDec 0), .ctx (.addInc 0), .startup 0 0, .ctx (.addInc 0),
+  [.ctx (.addCall 0 2), .ctx (.addInc 0), .startup 0 0, .ctx (.addInc 0),
    .ctx (.addReturn 0), .ctx .startBarrier, .ctx .startToken, .ctx .waitBegin, .ctx (.taskBegin 0 0), .ctx (.taskEnd 0),
    .memberCb 0 0 0, .ctx (.addInc 0), .ctx (.addReturn 0), .ctx (.dec 0), .ctx (.taskBegin 0 1), .ctx (.taskEnd 0),
-   .memberCb 0 0 1, .ctx (.dec 0), .ctx .sawZero, .ctx .barrier, .ctx .waitReturn]
+   .memberCb 0 0 1, .ctx (.nestDec 0), .ctx (.dec 0), .ctx .sawZero, .ctx .barrier, .ctx .waitReturn]
 
 theorem mkTp_fresh (n : Nat) (e d : Bool) : (mkTp n e d).fresh := by
   cases e <;> cases d <;> simp [mkTp, Tp.fresh]
 
 theorem wWF : WF wTps wComps := by
+  refine ⟨by decide, by decide, ?_, ?_⟩
+  · intro c hc
+    simp only [wComps, List.mem_cons, List.not_mem_nil, or_false] at hc
+    subst hc
+    refine ⟨rfl, rfl, by decide, by decide, ⟨_, rfl, rfl, rfl⟩, ?_⟩
+    intro m hm
+    simp only [List.mem_cons, List.not_mem_nil, or_false] at hm
+    rcases hm with rfl | rfl <;> exact ⟨_, rfl, rfl, rfl⟩
+  · intro tp h
+    simp only [wTps, List.mem_cons, List.not_mem_nil, or_false] at h
+    rcases h with rfl | rfl | rfl <;> exact mkTp_fresh _ _ _
+
+set_option maxRecDepth 8000 in
+/-- the run records: member callbacks at 12 and 20, the compound's callback at 21 (after the last task end,
+    19), its decrement at 22, the last member's decrement at 23, the wait return at 26 -/
+theorem wFacts : (crun 0 wTps wComps wRun).base.tps.map (fun t => (t.cbAt, t.decAt, t.addAt, t.firstBegin, t.lastEnd)) =
+      [(12, 17, 5, 10, 11), (20, 23, 15, 18, 19), (21, 22, 2, 0, 0)] ∧
+    (crun 0 wTps wComps wRun).base.waitRets = [26] ∧ (crun 0 wTps wComps wRun).base.active = 0 ∧
+    (crun 0 wTps wComps wRun).comps.map (fun c => (c.self, c.members, c.completed, c.pending)) = [(2, [0, 1], 2, 0)] := by decide
+
+/-! ## the code before the repair -/
+
+/-- the same statement for the compound as the code stood before the repair -/
+def CompletesAfterLastBuggy : Prop :=
+  ∀ (k : Nat) (tps : List Tp) (comps : List Comp), WFBuggy tps comps → ∀ (trs : List CTr) (ci : Nat) (c : Comp),
+    (crunBuggy k tps comps trs).comps[ci]? = some c → ∀ ts : Tp, (crunBuggy k tps comps trs).base.tps[c.self]? = some ts → ts.cbAt ≠ 0 →
+    ∀ (m : Nat) (tm : Tp), m ∈ c.members → (crunBuggy k tps comps trs).base.tps[m]? = some tm →
+      tm.ended = tm.total ∧ tm.lastEnd < ts.cbAt
+
+def bTps : List Tp := [mkTp 1 false false, mkTp 1 false false, mkTp 0 true false]
+/-- the witness: the compound's callback and decrement run inside add_taskpool; only then do the members run -/
+def bRun : List CTr :=
+  [.ctx (.addCall 0 2), .ctx (.earlyCb 0), .ctx (.earlyDec 0), .ctx (.addInc 0), .startup 0 0, .ctx (.addInc 0),
+   .ctx (.addReturn 0), .ctx .startBarrier, .ctx .startToken, .ctx .waitBegin, .ctx (.taskBegin 0 0), .ctx (.taskEnd 0),
+   .memberCb 0 0 0, .ctx (.addInc 0), .ctx (.addReturn 0), .ctx (.dec 0), .ctx (.taskBegin 0 1), .ctx (.taskEnd 0),
+   .memberCb 0 0 1, .ctx (.dec 0), .ctx .sawZero, .ctx .barrier, .ctx .waitReturn]
+
+theorem bWF : WFBuggy bTps wComps := by
   refine ⟨by decide, ?_, ?_⟩
   · intro c hc
     simp only [wComps, List.mem_cons, List.not_mem_nil, or_false] at hc
@@ -163,36 +287,36 @@ theorem wWF : WF wTps wComps := by
     simp only [List.mem_cons, List.not_mem_nil, or_false] at hm
     rcases hm with rfl | rfl <;> exact ⟨_, rfl, rfl, rfl⟩
   · intro tp h
-    simp only [wTps, List.mem_cons, List.not_mem_nil, or_false] at h
+    simp only [bTps, List.mem_cons, List.not_mem_nil, or_false] at h
     rcases h with rfl | rfl | rfl <;> exact mkTp_fresh _ _ _
 
 set_option maxRecDepth 8000 in
-/-- what the witness run records: the compound's callback at stamp 2 and its decrement at 3, before its
-    increment (4); the members' tasks at 11-12 and 18-19; the wait returns at 24 with everything done -/
-theorem wFacts : (crun 0 wTps wComps wRun).base.tps.map (fun t => (t.cbAt, t.decAt, t.addAt, t.firstBegin, t.lastEnd)) =
+/-- before the repair: callback of the compound at stamp 2 and its decrement at 3, before its increment (4);
+    the members' tasks at 11-12 and 18-19; the wait returns at 24 with everything done -/
+theorem bFacts : (crunBuggy 0 bTps wComps bRun).base.tps.map (fun t => (t.cbAt, t.decAt, t.addAt, t.firstBegin, t.lastEnd)) =
       [(13, 17, 6, 11, 12), (20, 21, 15, 18, 19), (2, 3, 4, 0, 0)] ∧
-    (crun 0 wTps wComps wRun).base.waitRets = [24] ∧ (crun 0 wTps wComps wRun).base.active = 0 ∧
-    (crun 0 wTps wComps wRun).comps.map (fun c => (c.self, c.members, c.completed, c.pending)) = [(2, [0, 1], 2, 0)] := by decide
+    (crunBuggy 0 bTps wComps bRun).base.waitRets = [24] ∧ (crunBuggy 0 bTps wComps bRun).base.active = 0 ∧
+    (crunBuggy 0 bTps wComps bRun).comps.map (fun c => (c.self, c.members, c.completed, c.pending)) = [(2, [0, 1], 2, 0)] := by decide
 
-/-- **The compound does NOT complete after its last taskpool** (code as written): refutation of
-    `CompletesAfterLast` by the run above, which is replayed on the real runtime (corpus/C15/001). -/
-theorem C15_not_after_last : ¬ CompletesAfterLast := by
+/-- **Before the repair the compound did NOT complete after its last taskpool** (finding, repaired by the
+    `fix:` commit on parsec/compound.c; the reverse patch is caught by the check with a failing input). -/
+theorem C15_buggy_not_after_last : ¬ CompletesAfterLastBuggy := by
   intro h
-  obtain ⟨hf, _, _, hcm⟩ := wFacts
-  have hlen : (crun 0 wTps wComps wRun).base.tps.length = 3 := by
+  obtain ⟨hf, _, _, hcm⟩ := bFacts
+  have hlen : (crunBuggy 0 bTps wComps bRun).base.tps.length = 3 := by
     have := congrArg List.length hf; simpa using this
-  have hclen : (crun 0 wTps wComps wRun).comps.length = 1 := by
+  have hclen : (crunBuggy 0 bTps wComps bRun).comps.length = 1 := by
     have := congrArg List.length hcm; simpa using this
-  have hc : (crun 0 wTps wComps wRun).comps[0]? = some (crun 0 wTps wComps wRun).comps[0] := List.getElem?_eq_getElem (by omega)
-  have hs : (crun 0 wTps wComps wRun).base.tps[2]? = some (crun 0 wTps wComps wRun).base.tps[2] := List.getElem?_eq_getElem (by omega)
-  have hm : (crun 0 wTps wComps wRun).base.tps[0]? = some (crun 0 wTps wComps wRun).base.tps[0] := List.getElem?_eq_getElem (by omega)
+  have hc : (crunBuggy 0 bTps wComps bRun).comps[0]? = some (crunBuggy 0 bTps wComps bRun).comps[0] := List.getElem?_eq_getElem (by omega)
+  have hs : (crunBuggy 0 bTps wComps bRun).base.tps[2]? = some (crunBuggy 0 bTps wComps bRun).base.tps[2] := List.getElem?_eq_getElem (by omega)
+  have hm : (crunBuggy 0 bTps wComps bRun).base.tps[0]? = some (crunBuggy 0 bTps wComps bRun).base.tps[0] := List.getElem?_eq_getElem (by omega)
   have e0 := congrArg (fun l => l[0]?) hcm
   have e1 := congrArg (fun l => l[2]?) hf
   have e2 := congrArg (fun l => l[0]?) hf
   simp only [List.getElem?_map, hc, hs, hm, Option.map_some] at e0 e1 e2
   simp at e0 e1 e2
   obtain ⟨es, em, _, _⟩ := e0
-  have := h 0 wTps wComps wWF wRun 0 _ hc _ (by rw [es]; exact hs) (by rw [e1.1]; decide) 0 _ (by rw [em]; decide) hm
+  have := h 0 bTps wComps bWF bRun 0 _ hc _ (by rw [es]; exact hs) (by rw [e1.1]; decide) 0 _ (by rw [em]; decide) hm
   rw [e1.1, e2.2.2.2.2] at this
   omega
 
